@@ -72,7 +72,7 @@ Inductive body :=
                (impl : res (list (list Q * list (mat Q) * list nat)))
 | KCorrIdx (meth : option cmethod) (ctol : Q) (f1 f2 : list (mat Q)) (n1 n2 : list (list Q)) (impl : res Q)
 | KLev (renorm : bool) (ltol : Q) (M U Vt : mat Q) (sv : list Q) (eps : Q) (impl : res (list Q))
-| KReg (which : nat) (ax : option nat) (yt yp : tensor Q) (exact : bool) (impl : res (tensor Q)) (src : option rform).
+| KReg (which : nat) (axz : option Z) (yt yp : tensor Q) (exact : bool) (impl : res (tensor Q)) (src : option rform).
 Definition case := (nat * body)%type.
 
 Fixpoint forallb2 {A B} (f : A -> B -> bool) (l : list A) (l' : list B) : bool :=
@@ -211,9 +211,14 @@ Definition agree (c : case) : bool :=
   | KPermuteList ref nas ts impl => agree_permute_list ref nas ts impl
   | KCorrIdx meth ctol f1 f2 n1 n2 impl => agree_corridx meth ctol f1 f2 n1 n2 impl
   | KLev renorm ltol M U Vt sv eps impl => agree_lev renorm ltol M U Vt sv eps impl
-  | KReg which ax yt yp exact impl src =>
-      agree_reg which ax yt yp exact impl &&
-      match src with Some f => negb (axis_ok ax yt) || src_agree which ax yt yp f | None => true end
+  | KReg which axz yt yp exact impl src =>
+      (* the axis argument as passed (possibly negative) is normalised NumPy-style; out of range: both sides reject *)
+      match norm_axis_opt axz (ndim yt) with
+      | Err => match impl with Err => true | Ok _ => false end
+      | Ok ax =>
+        agree_reg which ax yt yp exact impl &&
+        match src with Some f => negb (axis_ok ax yt) || src_agree which ax yt yp f | None => true end
+      end
   end.
 Definition ident (c : case) : nat := fst c.
 Definition failing := failing_ids agree ident.
